@@ -282,8 +282,10 @@ def gen_router_cases(rng, n, stops):
         r = rng.randint(1, 32) if k % 3 else rng.randint(0, 16)
         plan = []
         for _ in range(r):
+            kind = rng.random()
+            # x: crossbeam route with the router's own unbounded channel; b / z: the consumer's own bounded sender (capacity 1 / 0), read slowly
             plan.append((rng.choice([0, 0, 1, 3, 10, 50]) if rng.random() < 0.6 else 0, rng.choice([0, 1, 2, 5, 20, 50]),
-                         rng.random() < 0.6, rng.random() < 0.3))
+                         rng.random() < 0.6, False if kind >= 0.3 else ("x" if kind < 0.18 else ("b" if kind < 0.25 else "z"))))
         stop = stops[k % len(stops)]
         cases.append({"id": k + 1, "plan": plan, "threads": rng.randint(1, 8), "stop": stop, "nshut": rng.randint(1, 4), "late": rng.randint(0, 3) if stop == "shutdown" else 0,
                       "wave2": rng.choice([0, 1, 3]) if r else 0, "slowdrop": rng.choice([0, 300, 1500]) if stop == "shutdown" else 0,
@@ -294,7 +296,7 @@ def gen_router_cases(rng, n, stops):
 
 def router_line(c):
     return "id=%d plan=%s threads=%d stop=%s nshut=%d late=%d wave2=%d slowdrop=%d%s" % (
-        c["id"], ";".join("%d,%d,%d,%s" % (b, a, 1 if d else 0, "x" if x else "c") for b, a, d, x in c["plan"]) or "0,0,1,c",
+        c["id"], ";".join("%d,%d,%d,%s" % (b, a, 1 if d else 0, (x if isinstance(x, str) else "x") if x else "c") for b, a, d, x in c["plan"]) or "0,0,1,c",
         c["threads"], c["stop"], c["nshut"], c["late"], c.get("wave2", 0), c.get("slowdrop", 0), " owned=1" if c.get("owned") else "")
 
 
@@ -455,7 +457,8 @@ def router_check(chk, prop, stops, rule):
     cov["correspondence_mismatches"] = len(bad)
     cov["rule"] = rule
     cov["input_distribution"] = {"stops": {s: sum(1 for c, r, f in items if c["stop"] == s) for s in stops}, "routes_total": sum(len(c["plan"]) for c, r, f in items),
-                                 "crossbeam_routes": sum(1 for c, r, f in items for p in c["plan"] if p[3])}
+                                 "crossbeam_routes": sum(1 for c, r, f in items for p in c["plan"] if p[3]),
+                                 "bounded_crossbeam_routes": sum(1 for c, r, f in items for p in c["plan"] if p[3] in ("b", "z"))}
     for c, rec, fl in items[:2]:
         chk.sample({"scenario": router_line(c), "log": rec and (rec["log_before_stop"] + rec["log_at_return"] + rec["log_after"])[:20]})
     if errors:
@@ -472,7 +475,7 @@ def router_check(chk, prop, stops, rule):
 def check_C07(chk):
     router_check(chk, "C07", ["none", "none", "shutdown"],
                  "router driver: 0..32 routes registered from 1..8 threads while 0..50 messages per route are already queued and 0..50 more are sent during registration, "
-                 "senders dropped or kept, callback and crossbeam-forwarding routes; per-route log oracle (its messages once each in order, no foreign message, callback dropped "
+                 "senders dropped or kept, callback and crossbeam-forwarding routes (the router's unbounded channel, or the consumer's own bounded sender of capacity 0 or 1 read slowly); per-route log oracle (its messages once each in order, no foreign message, callback dropped "
                  "exactly once after its last message when the channel disconnects); per-handler projections compared with the Router LTS run on the canonical schedule; "
                  "in-process build too; non-trivial = several routes registered from several threads")
 
@@ -620,7 +623,7 @@ def gen_timed(rng, n):
             model.append("(MNonblocking, %s, None)" % state)
             d = None
         elif r < 0.8:
-            us = rng.choice([0, 300, 900, 1000, 1500, 5000, 20000, 60000, 3000000000000])
+            us = rng.choice([0, 300, 900, 1000, 1500, 5000, 20000, 60000, 3000000000000, (1 << 32) * 1000000, ((1 << 33) * 1000 + 5) * 1000])
             if state == "QIdle" and us > 100000:
                 us = 20000  # never wait for ever on an idle channel
             ops.append("T%d" % us)
@@ -637,8 +640,11 @@ def gen_timed(rng, n):
             d = None
         elif state == "QIdle":
             hang = rng.random() < 0.4
-            ops.append("%s2000000/20" % ("H" if hang else "W"))
-            model.append("(MTimeout 2000000, QIdle, Some %s)" % ("QDead" if hang else "QMsg"))
+            # the wait is ended by the other thread after 20 ms; requested: 2 s, or durations whose seconds sit at / just above multiples of 2^32
+            # (they do not fit the poll argument: the wait is then unbounded)
+            wus = rng.choice([2000000, 2000000, (1 << 32) * 1000000, ((1 << 33) * 1000 + 5) * 1000, ((1 << 32) + 3) * 1000000])
+            ops.append("%s%d/20" % ("H" if hang else "W", wus))
+            model.append("(MTimeout %d, QIdle, Some %s)" % (wus, "QDead" if hang else "QMsg"))
             state = "HupLater" if hang else "QMsgLater"
             d = None
         else:
